@@ -106,9 +106,69 @@ pub fn layer_a_check(prop: &str, tier: &str) -> i32 {
     orch::run_check(cfg, ws, corpus_info)
 }
 
+pub fn dap_check(prop: &str, tier: &str) -> i32 {
+    let seed = seed_from_env();
+    let (programs, histories) = if tier == "quick" { (5, 20) } else { (48, 64) };
+    let programs = std::env::var("BSSIM_PROGRAMS").ok().and_then(|s| s.parse().ok()).unwrap_or(programs);
+    let histories = std::env::var("BSSIM_HISTORIES").ok().and_then(|s| s.parse().ok()).unwrap_or(histories);
+    let specs: Vec<progen::ProgramSpec> = (0..programs)
+        .map(|k| {
+            let mut t = Tape::record(rng::derive(seed, "prog.micro", k as u64));
+            progen::micro_program(&mut t)
+        })
+        .collect();
+    let corpus = orch::build_corpus(specs, true);
+    if corpus.progs.is_empty() {
+        eprintln!("HARNESS-ERROR empty corpus");
+        return 2;
+    }
+    let corpus_info = json!({"family": "micro (stdout + stderr lines)", "programs": corpus.progs.len(), "rejected": corpus.rejected});
+    let dir = scratch_dir(prop);
+    let mut ws = vec![];
+    let mut idx = 0u64;
+    let mut params: BTreeMap<String, Value> = BTreeMap::new();
+    params.insert("max_requests".into(), json!(if tier == "quick" { 22 } else { 30 }));
+    if prop == "C13" {
+        params.insert("session_first".into(), json!(true));
+    }
+    for (p, b) in &corpus.progs {
+        for _ in 0..histories {
+            ws.push(WorkerSpec { property: prop.into(), mode: "dap".into(), seed: rng::derive(seed, prop, idx), run_idx: idx, program: p.clone(), bin: b.bin.to_string_lossy().into(), src_file: b.src_file.clone(), tape: None, out: dir.join(format!("r{idx}.json")).to_string_lossy().into(), params: params.clone() });
+            idx += 1;
+        }
+    }
+    let cfg = CheckCfg {
+        prop: prop.into(),
+        tier: tier.into(),
+        seed,
+        mode: "dap".into(),
+        programs: corpus.progs.len(),
+        histories,
+        det_pairs: if tier == "quick" { 16 } else { 64 },
+        timeout: Duration::from_secs(90),
+        params,
+        level: "exploration".into(),
+        rule: "one case = one (program, adaptive request history with argument mutation, interleaving of the session thread and the stdout/stderr forwarder threads chosen at the H1 schedule points from the run's tape); the recorded wire log is checked for one response per request, seq = 1,2,3.. in wire order, event uniqueness/causality and silence after `terminated`; distinct = distinct canonical wire log + schedule; non-trivial = at least 3 requests".into(),
+        assumptions: vec![
+            "schedule points sit outside every critical section, so the explored interleavings are exactly those distinguishable on the wire".into(),
+            "the simulated transport never blocks; in the real adapter the session holds the transport mutex while waiting for the client, which admits the same wire orders".into(),
+            "debuggee output is written in whole lines (atomic pipe writes), which makes forwarder enabledness a function of FIONREAD".into(),
+        ],
+        real_stub: json!({
+            "real": ["bugstalker::dap::yadap::session::DebugSession (dispatch, handlers, event queue)", "the two output-forwarder threads", "bugstalker::debugger under it, real kernel, real debuggee"],
+            "simulated": ["DAP client (seeded adaptive generator)", "transport (in-memory DapTransport)", "thread scheduler at hook points (tape-driven)"],
+            "stub": ["TCP/stdio framing (Content-Length) not exercised"]
+        }),
+        required_probes: vec!["c12.requests".into(), "c12.output_events".into(), "c12.decisions_with_choice".into(), "c12.forwarder_released_between_seq_and_lock_with_rivals".into(), "c12.error_responses".into(), "c12.stopped_events".into()],
+        budget: Duration::from_secs(600),
+    };
+    orch::run_check(cfg, ws, corpus_info)
+}
+
 pub fn check(prop: &str, tier: &str) -> i32 {
     match prop {
         "C01" | "C02" | "C03" | "C05" | "C11" | "C14" | "C16" => layer_a_check(prop, tier),
+        "C12" => dap_check(prop, tier),
         _ => {
             eprintln!("no check for {prop}");
             2
